@@ -106,6 +106,8 @@ class INVBUY(Aggregate, Origcurrency):
     dtpayroll = DateTime()
     prioryearcontrib = Bool()
 
+    optionalMutexes = [["currency", "origcurrency"]]
+
 
 class INVSELL(Aggregate, Origcurrency):
     """OFX section 13.9.2.4.3"""
@@ -131,6 +133,8 @@ class INVSELL(Aggregate, Origcurrency):
     statewithholding = Decimal()
     penalty = Decimal()
     inv401ksource = OneOf(*INV401KSOURCES)
+
+    optionalMutexes = [["currency", "origcurrency"]]
 
 
 class BUYDEBT(Aggregate):
@@ -197,6 +201,8 @@ class INCOME(Aggregate, Origcurrency):
     origcurrency = SubAggregate(ORIGCURRENCY)
     inv401ksource = OneOf(*INV401KSOURCES)
 
+    optionalMutexes = [["currency", "origcurrency"]]
+
 
 class INVEXPENSE(Aggregate, Origcurrency):
     """OFX section 13.9.2.4.4"""
@@ -209,6 +215,8 @@ class INVEXPENSE(Aggregate, Origcurrency):
     currency = SubAggregate(CURRENCY)
     origcurrency = SubAggregate(ORIGCURRENCY)
     inv401ksource = OneOf(*INV401KSOURCES)
+
+    optionalMutexes = [["currency", "origcurrency"]]
 
 
 class JRNLFUND(Aggregate):
@@ -239,6 +247,8 @@ class MARGININTEREST(Aggregate, Origcurrency):
     currency = SubAggregate(CURRENCY)
     origcurrency = SubAggregate(ORIGCURRENCY)
 
+    optionalMutexes = [["currency", "origcurrency"]]
+
 
 class REINVEST(Aggregate, Origcurrency):
     """OFX section 13.9.2.4.4"""
@@ -259,6 +269,8 @@ class REINVEST(Aggregate, Origcurrency):
     origcurrency = SubAggregate(ORIGCURRENCY)
     inv401ksource = OneOf(*INV401KSOURCES)
 
+    optionalMutexes = [["currency", "origcurrency"]]
+
 
 class RETOFCAP(Aggregate, Origcurrency):
     """OFX section 13.9.2.4.4"""
@@ -271,6 +283,8 @@ class RETOFCAP(Aggregate, Origcurrency):
     currency = SubAggregate(CURRENCY)
     origcurrency = SubAggregate(ORIGCURRENCY)
     inv401ksource = OneOf(*INV401KSOURCES)
+
+    optionalMutexes = [["currency", "origcurrency"]]
 
 
 class SELLDEBT(Aggregate):
@@ -329,6 +343,8 @@ class SPLIT(Aggregate, Origcurrency):
     fraccash = Decimal()
     subacctfund = OneOf(*INVSUBACCTS)
     inv401ksource = OneOf(*INV401KSOURCES)
+
+    optionalMutexes = [["currency", "origcurrency"]]
 
 
 class TRANSFER(Aggregate):
